@@ -94,8 +94,10 @@ static int cid(struct dlist_head *p)
 }
 static std::string cptr(struct dlist_head *p)
 {
+#if defined(DLIST_POISON1) && defined(DLIST_POISON2)   // internal macro names: optional (round 3b)
     if (p == DLIST_POISON1) return "P1";
     if (p == DLIST_POISON2) return "P2";
+#endif
     int i = cid(p);
     return i < 0 ? "?" : std::to_string(i);
 }
@@ -131,8 +133,10 @@ static int trid(struct dlist_head *p)
 }
 static std::string ttok(struct dlist_head *p)
 {
+#if defined(DLIST_POISON1) && defined(DLIST_POISON2)
     if (p == DLIST_POISON1) return "P1";
     if (p == DLIST_POISON2) return "P2";
+#endif
     int r = trid(p), n = (int)tobj.size();
     if (r < 0) return "?";
     if (r >= 2 * n) return std::to_string(n + r - 2 * n);
@@ -145,11 +149,19 @@ typedef igris::dlist<XItem, &XItem::lnk> XList;
 static std::vector<XItem *> xn;   // item slots (nullptr = dead)
 static std::vector<XList *> xl;   // lists (nullptr = dead)
 static int xnitems = 0;
+// address of the head node of a list.  The iterator's field `current` is an internal name: when it is renamed or made
+// private the head is found through the layout the header static_asserts (dlist_base is exactly its head node) - round 3b
+template <class L> static igris::dlist_node *xhead_of(L *l)
+{
+    auto e = l->end();
+    if constexpr (requires { e.current; }) return e.current;
+    else return reinterpret_cast<igris::dlist_node *>(static_cast<igris::dlist_base *>(l));
+}
 static igris::dlist_node *xnode(int id)
 {
     if (id < xnitems) return xn[id] ? &xn[id]->lnk : nullptr;
     XList *l = xl[id - xnitems];
-    return l ? l->end().current : nullptr;
+    return l ? xhead_of(l) : nullptr;
 }
 static std::string xptr(igris::dlist_node *p)
 {
